@@ -1310,3 +1310,88 @@ func loopCapturedWrites(fn *ssa.Function, isWrapper func(*ssa.Function) bool) (o
 	})
 	return
 }
+
+// sharedAccumulators: local maps made outside a loop, filled inside it and consumed as a whole inside it (ranged over,
+// measured, or handed to a function): each iteration then sees what the earlier iterations put in. A set that is only
+// asked about single keys inside the loop (a dedup set) is not reported.
+type sharedAcc struct {
+	Make *ssa.MakeMap
+	Use  ssa.Instruction
+}
+
+func sharedAccumulators(fn *ssa.Function) []sharedAcc {
+	var out []sharedAcc
+	loops := naturalLoops(fn)
+	if len(loops) == 0 {
+		return nil
+	}
+	eachInstr(fn, func(mb *ssa.BasicBlock, in ssa.Instruction) {
+		mm, ok := in.(*ssa.MakeMap)
+		if !ok {
+			return
+		}
+		// the values through which the map is reached: itself, or loads of the local cell it is stored in
+		isMap := func(v ssa.Value) bool {
+			if v == ssa.Value(mm) {
+				return true
+			}
+			if al, ok := loadAddr(v).(*ssa.Alloc); ok {
+				sts := storesInto(al)
+				return len(sts) == 1 && sts[0].Val == ssa.Value(mm)
+			}
+			return false
+		}
+		// stored into a field or returned: not a local accumulator
+		escapes := false
+		for _, r := range *mm.Referrers() {
+			switch x := r.(type) {
+			case *ssa.Store:
+				if _, isAl := x.Addr.(*ssa.Alloc); !isAl {
+					escapes = true
+				}
+			case *ssa.Return:
+				escapes = true
+			}
+		}
+		if escapes {
+			return
+		}
+		for _, lp := range loops {
+			if lp.Blocks[mb] {
+				continue
+			}
+			var update, whole ssa.Instruction
+			for _, b := range fn.Blocks {
+				if !lp.Blocks[b] {
+					continue
+				}
+				for _, in2 := range b.Instrs {
+					switch x := in2.(type) {
+					case *ssa.MapUpdate:
+						if isMap(x.Map) {
+							update = in2
+						}
+					case *ssa.Range:
+						if isMap(x.X) {
+							whole = in2
+						}
+					case *ssa.Call:
+						for _, a := range x.Call.Args {
+							if isMap(a) {
+								if bi, ok := x.Call.Value.(*ssa.Builtin); ok && bi.Name() == "delete" {
+									continue
+								}
+								whole = in2
+							}
+						}
+					}
+				}
+			}
+			if update != nil && whole != nil {
+				out = append(out, sharedAcc{mm, whole})
+				return
+			}
+		}
+	})
+	return out
+}
